@@ -1199,7 +1199,7 @@ def dbg_field(name, ty, a, form, struct_style):
         return Field(name, "u8", attrs=attrs, debug=sem)
     if a == "M" and struct_style:
         m = DBG_METHODS[form % 2]
-        sem["method"] = m; sem["key"] = "mk%d" % (form % 5)
+        sem["method"] = m; sem["key"] = ["mk%d" % (form % 5), "right", "_m", "rm%d" % (form % 3)][form % 4]
         two = [spell_param("method", m, form), ["name = %s", "rename(%s)"][form % 2] % sem["key"]]
         if (form // 2) % 2:
             two.reverse()
@@ -1211,7 +1211,8 @@ def dbg_field(name, ty, a, form, struct_style):
     elif a in "ib":
         attrs.append(["Debug(ignore)", "Debug = false", "Debug(ignore = true)", "Debug(ignore(true))"][form % 4])
     elif a == "k" and struct_style:
-        k = "k%d" % (form % 7)
+        # key texts of different make: the shown key is the identifier as written, whatever it starts with
+        k = ["k%d" % (form % 7), "rate", "_k", "r", "Key", "r_r", "fn_", "x%d" % (form % 7), "result"][form % 9]
         sem["key"] = k
         attrs.append(["Debug(name = %s)", "Debug = %s", "Debug(rename(%s))", 'Debug(name = "%s")', 'Debug = "%s"', "Debug(name(%s))"][form % 6] % k)
     return Field(name, ty, attrs=attrs, debug=sem)
@@ -1222,13 +1223,15 @@ def c06(tier, seed):
     c = Counter()
     out = []
     form = 0
-    names = [("default", "default"), ("Renamed", "custom"), (False, "off")]
+    names = [("default", "default"), ("Renamed", "custom"), (False, "off"), ("renamed", "custom, lower case r"), ("_R", "custom, underscore")]
     maxn = 3 if tier == "quick" else 4
     for shape in ("named", "tuple"):
         for n in range(0, maxn + 1):
             for tn, _ in names:
                 for nf in (None, shape != "named"):
                     struct_style = (shape == "named") if nf is None else nf
+                    if tn in ("renamed", "_R") and tier == "quick" and (n > 1 or nf is not None):
+                        continue
                     if tn is False and (n == 0 or struct_style):
                         continue          # nameless unit shape is rejected; nameless struct style is the debug_map form (outside Verus)
                     assigns = list(itertools.product("nik" if struct_style else "ni", repeat=n))
@@ -1265,7 +1268,7 @@ def c06(tier, seed):
                 for vi, ki in enumerate(combo):
                     kind, m = vkinds[ki]
                     # variant-level name: default / disabled / custom ; named_field flip on some
-                    vn = [True, False, "Q%d" % vi][(vi + vmode) % 3]
+                    vn = [True, False, ["Q%d", "r%d", "_v%d"][(vi + ci) % 3] % vi][(vi + vmode) % 3]
                     vnf = None if (vi + vmode + ci) % 3 else (kind != "named")
                     if kind == "unit":
                         vnf = None
@@ -1494,6 +1497,27 @@ def c14(tier, seed):
         perm2 = [x.replace("eq_a", "hash_a") for x in perm]
         fs = [Field("a", "u16", hash={}), Field("b", "u8", attrs=["Hash(%s)" % ", ".join(perm2)], hash={"method": "crate::m::hash_a"})]
         add(Program(c.pid(), "struct", "S", [Variant(None, "named", fs)], ["Hash"], focus={"Hash"}, note="C14 Hash parameter order `%s`" % ", ".join(perm2)))
+    # ---- method paths that start with `Self`: the token and the string spellings name the same associated function;
+    # a free function of the same name in scope (it panics) must never be the one that runs
+    for j, msp in enumerate(val_forms("method", "Self::m9")):
+        pre = lambda sig, body: ("impl S { pub fn m9%s { %s } }\npub fn m9%s { panic!(\"the free function m9 was called instead of Self::m9\") }\n" % (sig, body, sig))
+        fs = [Field("a", "u16", eq={}), Field("c", "u8", attrs=["PartialEq(%s)" % msp], eq={"method": "crate::m::eq_a"})]
+        P = add(Program(c.pid(), "struct", "S", [Variant(None, "named", fs)], ["PartialEq"], focus={"PartialEq"}, note="C14 PartialEq Self-path method=`%s`" % msp))
+        P.tags["pre_items"] = pre("(a: &u8, b: &u8) -> bool", "crate::m::eq_a(a, b)")
+        P.tags["no_verus"] = "the method is an associated function of the educed type (not part of the expansion): decided by Kani"
+        fs = [Field("a", "u16", hash={}), Field("c", "u8", attrs=["Hash(%s)" % msp], hash={"method": "crate::m::hash_a"})]
+        P = add(Program(c.pid(), "struct", "S", [Variant(None, "named", fs)], ["Hash"], focus={"Hash"}, note="C14 Hash Self-path method=`%s`" % msp))
+        P.tags["pre_items"] = pre("<H9: core::hash::Hasher>(a: &u8, h: &mut H9)", "crate::m::hash_a(a, h)")
+        P.tags["no_verus"] = "the method is an associated function of the educed type (not part of the expansion): decided by Kani"
+        fs = [Field(None, "u16", ord={}), Field(None, "u8", attrs=["Ord(%s)" % msp], ord={"method": "crate::m::cmp_a"})]
+        P = ord_program(c.pid(), "struct", "S", [Variant(None, "tuple", fs)], "both", [], j, "C14 Ord Self-path method=`%s`" % msp, prop="C14")
+        P.tags["pre_items"] = pre("(a: &u8, b: &u8) -> core::cmp::Ordering", "crate::m::cmp_a(a, b)")
+        P.tags["no_verus"] = "the method is an associated function of the educed type (not part of the expansion): decided by Kani"
+        out.append(P)
+        fs = [Field("a", "u16", clone={}), Field("c", "u8", attrs=["Clone(%s)" % msp], clone={"method": "crate::m::clone_a"})]
+        P = add(clone_program(c.pid(), "struct", "S", [Variant(None, "named", fs)], [], False, "C14 Clone Self-path method=`%s`" % msp, 1))
+        P.tags["pre_items"] = pre("(a: &u8) -> u8", "crate::m::clone_a(a)")
+        P.tags["no_verus"] = "the method is an associated function of the educed type (not part of the expansion): decided by Kani"
     # ---- explicit "not ignored" spellings: the field must still be compared / hashed / shown
     for j, neg in enumerate(["%s(ignore = false)", "%s(ignore(false))", "%s = true"]):
         fs = [Field("a", "T0", attrs=[neg % "PartialEq"], eq={}), Field("b", "T1", attrs=["PartialEq(ignore)"], eq={"ignore": True}), Field("c", "T0", eq={})]
@@ -1727,10 +1751,53 @@ def c15_deref():
     return out
 
 
+def add_hash_twin(P):
+    """C15 for Hash, whose contract leaves the variant tag's encoding open: the same type educing Hash ALONE (same Hash
+    attributes) must feed the same data.  Only for non-generic types whose fields are Copy."""
+    if "Hash" not in P.focus or P.generics or P.kind == "union":
+        return P
+    Q = copy.deepcopy(P)
+    Q.tags.pop("frozen_src", None)
+    Q.name = "Tw9"
+    hm = [t for t in P.traits if re.match(r"Hash\b", t)]
+    Q.traits = hm or ["Hash"]
+    Q.type_attrs = None
+    Q.extra_derive = []
+    for v in Q.variants:
+        v.attrs = [a for a in (v.attrs or []) if re.match(r"Hash\b", a)]
+        for f in v.fields:
+            f.attrs = [a for a in f.attrs if re.match(r"Hash\b", a)]
+            f.sem.pop("_split_attrs", None)
+    arms = []
+    for v, w in zip(P.variants, Q.variants):
+        arms.append("%s => %s," % (P.pat(v, "x"), Q.build(w, ["*x%d" % f.idx for f in v.fields])))
+    P.tags["hash_twin"] = {"typedef": Q.typedef(True),
+                           "conv": "pub fn to_twin(x: &TI) -> Tw9 {\n    match x {\n        %s\n    }\n}\n" % "\n        ".join(arms)}
+    return P
+
+
+def c15_unit_enums():
+    """field-less enums with explicit discriminants educing Hash next to Copy / Clone / the comparison traits: the
+    Hash-only twin feeds the same data"""
+    out = []
+    k = 0
+    for ds in ([10, 3, None], [None, 7, None, 2], [-4, None, 100]):
+        for traits in (["Hash", "Clone", "Copy"], ["Copy", "Clone", "PartialEq", "Eq", "Hash"], ["Hash", "PartialEq", "PartialOrd"], ["Debug", "Hash", "Clone"]):
+            k += 1
+            vs = [Variant("V%d" % i, "unit", [], discr=d, debug={"name": True, "named_field": None}) for i, d in enumerate(ds)]
+            focus = {t for t in traits if t not in ("Eq", "Copy")}
+            P = Program("pu%03d" % k, "enum", "E", vs, traits, focus=focus, repr_="i16" if k % 2 else None,
+                        note="C15 field-less enum with explicit discriminants %s, traits=%s" % (ds, traits),
+                        ord={"mode": "po"}, clone={"copy": "Copy" in traits}, default={"new": False}, debug={"name": "default", "named_field": None})
+            P.tags["prop"] = "C15"
+            out.append(P)
+    return out
+
+
 def c15(tier, seed):
     rnd = random.Random(1000 + seed)
     c = Counter()
-    out = c15_structured() + c15_packed() + c15_deref()
+    out = c15_structured() + c15_packed() + c15_deref() + c15_unit_enums()
     ALL = ["Debug", "PartialEq", "Eq", "PartialOrd", "Ord", "Hash", "Clone", "Default", "Into(u16)"]
     nprog = 24 if tier == "quick" else 360
     for pi in range(nprog):
